@@ -44,6 +44,9 @@ def unary_forms(a):
         (f"({t})[1:2]", "SubSlice"), (f"lambda q: ({t})", "Lambda"), (f"lambda e: ({t})", "LambdaShadow"), (f"[{t}]", "List1"), (f"({t},)", "Tuple1"),
         (f"{{'k': ({t})}}", "Dict1"), (f"{{'jet-pt': ({t})}}", "DictHyphen"), (f"{{'class': ({t})}}", "DictKeyword"),
         (f"{{'': ({t})}}", "DictEmptyKey"), (f"{{'self': ({t}), 'cls': 1}}", "DictSelfKey"), (f"{{'__debug__': ({t})}}", "DictDebugKey"), (f"{{'self': ({t})}}.self", "DictSelfKeyAttr"), (f"{{'a b': ({t})}}", "DictSpace"), (f"({t}).m()", "Method0"),
+        # keys that are no plain constants: a negative number (a UnaryOp), a tuple, a key only known when the query runs, a ** entry
+        (f"{{-1: ({t}), 'a': 2}}.a", "DictNegKeySiblingAttr"), (f"{{(1, 2): 1, 'a': ({t})}}['a']", "DictTupleKeySiblingKey"), (f"{{(e).k: ({t})}}", "DictRuntimeKey"),
+        (f"{{'a': ({t}), **(e).rest}}", "DictUnpacking"), (f"{{f'{{(e).n}}': ({t})}}", "DictFStringKey"),
         (f"({t},)[0]", "TupLitIdx"), (f"{{'k': ({t})}}.k", "DictLitAttr"), (f"{{'k': ({t})}}['k']", "DictLitKey"),
         (f"({t}).x[0](1)", "CallOfSubscriptOfAttr"), (f"({t}).__call__(1)", "DunderCall"), (f"({t})[(e).x]", "SubRuntimeKey"),
         # methods python's own value types really have (with defaults the caller leaves out / with no inspectable signature)
@@ -233,6 +236,10 @@ def refusal_classes(body):
         if isinstance(n, ast.IfExp):
             kb, ko = kind(n.body), kind(n.orelse)
             ok = (kb in ("num", "unknown") and ko in ("num", "unknown")) or (kb == ko and kb in ("bool", "str"))
+            # something nothing is known about (a name, its attributes, what its methods return) goes with text and truth values too:
+            # `e.name if e.ok else 'none'` is no designed refusal
+            if (_surely_unknown(n.body) and ko in ("str", "bool", "num", "unknown")) or (_surely_unknown(n.orelse) and kb in ("str", "bool", "num", "unknown")):
+                ok = True
             # two dictionary displays with the same keys and the same (kinds of) values are the same kind of thing
             if same_dict_shape(n.body, n.orelse):
                 ok = True
@@ -252,6 +259,17 @@ def refusal_classes(body):
 
 
 _NOKEY = object()
+
+
+def _surely_unknown(n):
+    """an expression the type follower can know nothing about on an untyped stream: a name, attributes of it, results of its methods"""
+    if isinstance(n, ast.Name):
+        return n.id not in ("abs", "len")
+    if isinstance(n, ast.Attribute):
+        return _surely_unknown(n.value)
+    if isinstance(n, ast.Call) and isinstance(n.func, ast.Attribute) and not n.keywords and not any(isinstance(a, ast.Starred) for a in n.args):
+        return _surely_unknown(n.func.value)
+    return False
 
 
 def _field(d, key):
